@@ -95,6 +95,8 @@ REGISTRY["C07"]["theorems"] += S("C07", "C07_get", "C07_front", "C07_back", "C07
 REGISTRY["C11"]["theorems"] += S("C11", "C11_swap_ok", "C11_swap_panics_i", "C11_swap_panics_j", "C11_range_ok", "C11_range_panics")
 REGISTRY["C08"]["theorems"] += S("C08", "C08_over_range", "C08_whole")
 REGISTRY["C08"]["theorems"] += S("C08Step", "C08_next", "C08_next_back", "C08_len", "C08_over_range_mut", "C08_whole_mut", "C08_next_mut", "C08_next_back_mut", "C08_len_mut")
+REGISTRY["C01"]["theorems"] += S("C01Fill", "C01_fill_spare_with", "C01_fill_with")
+REGISTRY["C06"]["theorems"] += S("C01Fill", "C06_closure")
 REGISTRY["C09"]["theorems"] += S("C09", "C09_new", "C09_next", "C09_next_back", "C09_len", "C09_as_mut_slices", "C09_as_slices")
 REGISTRY["C10"]["theorems"] += S("C09", "C10_forget_safe")
 REGISTRY["C09"]["theorems"] += S("C09", "C09_drop")
